@@ -140,3 +140,47 @@ class BodyCheck:
                     while isinstance(base, (ast.Subscript, ast.Attribute)): base = base.value
                     if isinstance(base, ast.Name) and not (base.id in s.private and base.id in s.assigned):
                         s.problems.append((node, f"helper {sm['key'].split('::')[1]} writes into its argument '{ast.unparse(a)}', an array shared by all iterations"))
+
+
+# ---------------------------------------------------------------------------- the thread count does not select the arithmetic
+_THREAD_QUERIES = ("get_num_threads", "_get_num_threads", "cpu_count", "active_count", "get_thread_id", "NUMBA_NUM_THREADS", "NUMBA_DEFAULT_NUM_THREADS", "sched_getaffinity")
+_THREAD_FIXTURE = '''
+def k(x, starts):
+    if starts.shape[0] < get_num_threads():
+        return serial(x, starts)
+    return parallel(x, starts)
+'''
+
+
+def _thread_selected_sites(mod):
+    out = []
+    for fn in [n for n in ast.walk(mod) if isinstance(n, ast.FunctionDef)]:
+        tainted = set()
+        for n in ast.walk(fn):
+            if isinstance(n, ast.Assign) and any(t_ in ast.unparse(n.value) for t_ in _THREAD_QUERIES):
+                for t in n.targets:
+                    if isinstance(t, ast.Name): tainted.add(t.id)
+        for n in ast.walk(fn):
+            test = n.test if isinstance(n, (ast.If, ast.IfExp, ast.While)) else None
+            if test is None: continue
+            src = ast.unparse(test)
+            if any(t_ in src for t_ in _THREAD_QUERIES) or any(isinstance(x, ast.Name) and x.id in tainted for x in ast.walk(test)):
+                out.append((fn, n))
+    return out
+
+
+def check_thread_count_independent(ctx, rule="R11-thread-count-does-not-select-the-arithmetic", files=("speckit/core.py", "speckit/core_cuda.py", "speckit/analysis.py")):
+    """the code path that computes a statistic is not chosen by the number of threads / cores of the machine: two differently ordered computations
+    (serial Welford vs. parallel two-pass, ...) agree at best to rounding, so the result would depend on the thread configuration."""
+    assert len(_thread_selected_sites(ast.parse(_THREAD_FIXTURE))) == 1, "rule self-test failed"
+    nfun = 0; bad = 0
+    for rel in files:
+        if rel not in ctx.repo.mods: continue
+        mod = ctx.repo.module(rel)
+        nfun += sum(1 for n in ast.walk(mod) if isinstance(n, ast.FunctionDef))
+        for fn, node in _thread_selected_sites(mod):
+            bad += 1
+            ctx.violated(rule, f"{rel}::{fn.name}[{' '.join(ast.unparse(node.test).split())[:70]}]", "a branch of the statistics path is selected by the thread / core count of the machine: "
+                         "the same record and plan give different numbers on differently configured machines (and the two paths have to be proved equal separately)", f"{rel}:{node.lineno}")
+    ctx.need("functions scanned for thread-count dependent branches", nfun, 60)
+    if not bad: ctx.holds(rule, ",".join(files), f"{nfun} functions: no branch condition reads the thread / core count (positive control: the built-in fixture is reported)", files[0])
